@@ -50,7 +50,7 @@ def run(tier, seed):
     if not ck.proof['driver_ok']:
         ck.notes['driver'] = 'unavailable: model-side runs skipped, searching with the implementation-side oracles only'
     import soupsieve as sv
-    n = 100 if tier == 'quick' else 2500
+    n = 150 if tier == 'quick' else 2500
     custom = {':--cust': 'p, div > span'}
     scs = []
     plan = [('forms', 'nasty', ('core', 'state', 'lang', 'dir', 'contains', 'misc')),
